@@ -257,9 +257,14 @@ fn rename_variable(
         return Ok(());
     };
 
-    // Rename the variable declaration.
-    let decl = Declaration::cast(external.node(folder.modules().unwrap())).unwrap();
-    let decl_location = node_location(workspace, decl.identifier().node())?;
+    // Rename the variable declaration, or the binding of a function parameter or recursion variable.
+    let node = external.node(folder.modules().unwrap());
+    let ident = match Declaration::cast(node) {
+        Some(decl) => decl.identifier().node(),
+        // The definition is a binding: its identifier is the first child.
+        None => node.first(),
+    };
+    let decl_location = node_location(workspace, ident)?;
     let decl_edit = TextEdit::new(decl_location.range, new_name.into());
     changes.insert(decl_location.uri, vec![decl_edit]);
 
